@@ -1,6 +1,37 @@
 //! `vh` - conformance harness binding the TLA+ specification in /verif/spec to the jsonrpsee tree in /repo.
 #![allow(clippy::all)]
 pub mod common;
+pub mod server_rig;
+pub mod wire;
+pub mod c01_single;
 pub mod c13_registry;
 pub mod c16_params_seq;
 pub mod c20_params_builder;
+
+/// a string whose JSON serialisation (quotes included) is exactly `n` bytes (n >= 2); kind: ascii | esc | multi
+pub fn limits_payload(n: usize, kind: &str) -> String {
+	let body = n.saturating_sub(2);
+	let mut s = String::new();
+	match kind {
+		"esc" => {
+			for _ in 0..body / 2 {
+				s.push('"');
+			}
+		}
+		"multi" => {
+			for _ in 0..body / 2 {
+				s.push('\u{e9}');
+			}
+		}
+		_ => {
+			for _ in 0..body {
+				s.push('a');
+			}
+		}
+	}
+	if kind != "ascii" && body % 2 == 1 {
+		s.push('a');
+	}
+	debug_assert_eq!(serde_json::to_string(&s).unwrap().len(), n.max(2));
+	s
+}
